@@ -16,7 +16,7 @@ SYMBOLIC = False     # set while a symbolic harness runs: mutable buffers become
 
 
 def is_sym(x):
-    return isinstance(x, (SymInt, SymBool, SymBuf, SymStr, core.SymQuot)) or hasattr(type(x), 'sym_len')
+    return isinstance(x, (SymInt, SymBool, SymBuf, SymStr, core.SymQuot, core.SymScaled)) or hasattr(type(x), 'sym_len')
 
 
 # --------------------------------------------------------------------------- byte containers
